@@ -28,10 +28,15 @@ func (d *Decoder) readType() (string, error) {
 		d.typList = append(d.typList, t)
 		return t, nil
 	}
-	i, err := d.readInt(_tagRead)
+	// type ::= string | int : an int refers to a type string seen earlier in the stream;
+	// its tag has already been read
+	i, err := d.readInt(int32(tag))
 	if err != nil {
 		return "", newCodecError("readType", err)
 	}
 	index := int(i)
+	if index < 0 || index >= len(d.typList) {
+		return "", newCodecError("readType", "type ref index %d out of range, %d seen", index, len(d.typList))
+	}
 	return d.typList[index], nil
 }
